@@ -76,13 +76,6 @@ func fpCorpus(universe uint64) ([]*fpFile, error) {
 		p := filepath.Join(root, f.Pkg, "f0.go")
 		os.WriteFile(p, []byte(f.Src), 0o644)
 		ff := &fpFile{path: p, src: f.Src}
-		for s := 0; s < fpSlots; s++ {
-			pk, err := loadPackagesFromSource(p, f.Src)
-			if err != nil {
-				return nil, fmt.Errorf("load %s: %w", p, err)
-			}
-			ff.pkgs[s] = pk
-		}
 		files = append(files, ff)
 	}
 	// two wide packages (more functions than any worker-pool or chunking threshold
@@ -100,17 +93,43 @@ func fpCorpus(universe uint64) ([]*fpFile, error) {
 		p := filepath.Join(root, "wide", "f0.go")
 		os.WriteFile(p, []byte(src), 0o644)
 		ff := &fpFile{path: p, src: src}
-		for s := 0; s < fpSlots; s++ {
-			pk, err := loadPackagesFromSource(p, src)
-			if err != nil {
-				return nil, fmt.Errorf("load %s: %w", p, err)
-			}
-			ff.pkgs[s] = pk
+		files = append(files, ff)
+	}
+	// one package with a function beyond the size guard (> 5000 basic blocks):
+	// the guard's early-return path handles pooled state too
+	{
+		var sb strings.Builder
+		sb.WriteString("package huge\n\nfunc Huge(x int) int {\n\ty := 0\n")
+		for k := 0; k < 2700; k++ {
+			fmt.Fprintf(&sb, "\tif x > %d {\n\t\ty += %d\n\t}\n", k, k%7+1)
 		}
+		sb.WriteString("\treturn y\n}\n\nfunc Clamp(v, lo, hi int) int {\n\tif v >= hi {\n\t\treturn hi\n\t}\n\tif v > lo {\n\t\treturn v\n\t}\n\treturn lo\n}\n")
+		src := sb.String()
+		root := filepath.Join(d, "huge")
+		os.MkdirAll(filepath.Join(root, "huge"), 0o755)
+		os.WriteFile(filepath.Join(root, "go.mod"), []byte("module example.test/gen\n\ngo 1.23\n"), 0o644)
+		p := filepath.Join(root, "huge", "f0.go")
+		os.WriteFile(p, []byte(src), 0o644)
+		ff := &fpFile{path: p, src: src}
 		files = append(files, ff)
 	}
 	fpFiles = files
 	return files, nil
+}
+
+// slot returns the independently loaded package copy of a file for a task slot
+// (loaded on first use, outside any simulation).
+func (f *fpFile) slot(i int) ([]*packages.Package, error) {
+	fpMu.Lock()
+	defer fpMu.Unlock()
+	if f.pkgs[i] == nil {
+		pk, err := loadPackagesFromSource(f.path, f.src)
+		if err != nil {
+			return nil, fmt.Errorf("load %s: %w", f.path, err)
+		}
+		f.pkgs[i] = pk
+	}
+	return f.pkgs[i], nil
 }
 
 func renderResults(rs []FingerprintResult, err error, pv any) string {
@@ -153,7 +172,12 @@ func fpReference(files []*fpFile, fi, pi int, strict bool) (string, string) {
 	sim.MapOrderOn, sim.PoolOn = true, true
 	var out string
 	oldProcs := runtime.GOMAXPROCS(1) // the reference is the sequential execution
-	_, infra := vs.BubbleRun(fpT, sim, func() { out = callFP(files[fi].pkgs[0], fpPolicy[pi], strict) })
+	pk0, lerr := files[fi].slot(0)
+	if lerr != nil {
+		runtime.GOMAXPROCS(oldProcs)
+		return "", lerr.Error()
+	}
+	_, infra := vs.BubbleRun(fpT, sim, func() { out = callFP(pk0, fpPolicy[pi], strict) })
 	runtime.GOMAXPROCS(oldProcs)
 	if infra != "" {
 		return "", infra
@@ -167,6 +191,23 @@ func fpReference(files []*fpFile, fi, pi int, strict bool) (string, string) {
 type fpCall struct {
 	file, policy int
 	strict       bool
+	viaSource    bool // go through FingerprintSourceAdvanced (own load) instead of the pre-loaded packages
+}
+
+// pickFile: ordinary files often, the wide ones sometimes, the huge one rarely.
+func pickFile(t *vs.Tape, n int) int {
+	w := make([]int, n)
+	for i := range w {
+		switch {
+		case i < nFpFiles:
+			w[i] = 10
+		case i < nFpFiles+2:
+			w[i] = 4
+		default:
+			w[i] = 2
+		}
+	}
+	return t.Weighted("file", w...)
 }
 
 func firstLineDiff(a, b string) string {
@@ -205,7 +246,7 @@ func runC01(t *vs.Tape, cfg map[string]string) (res vs.Result) {
 		n := 1 + t.Intn(4, "ncalls")
 		var p []fpCall
 		for j := 0; j < n; j++ {
-			p = append(p, fpCall{file: t.Intn(len(files), "file"), policy: t.Intn(2, "policy"), strict: t.Chance("strict", 1, 3)})
+			p = append(p, fpCall{file: pickFile(t, len(files)), policy: t.Intn(2, "policy"), strict: t.Chance("strict", 1, 3), viaSource: t.Chance("viasource", 1, 10)})
 		}
 		progs = append(progs, p)
 		descr = append(descr, fmt.Sprint(p))
@@ -215,6 +256,14 @@ func runC01(t *vs.Tape, cfg map[string]string) (res vs.Result) {
 		for _, cl := range p {
 			if _, infra := fpReference(files, cl.file, cl.policy, cl.strict); infra != "" {
 				res.Infra = "reference: " + infra
+				return
+			}
+		}
+	}
+	for i, p := range progs {
+		for _, cl := range p {
+			if _, err := files[cl.file].slot(i); err != nil {
+				res.Infra = err.Error()
 				return
 			}
 		}
@@ -236,6 +285,17 @@ func runC01(t *vs.Tape, cfg map[string]string) (res vs.Result) {
 				defer wg.Done()
 				sim.Park("start", fmt.Sprintf("task%d", i))
 				for _, cl := range progs[i] {
+					if cl.viaSource {
+						var rs []FingerprintResult
+						var err error
+						var pv any
+						func() {
+							defer func() { pv = recover() }()
+							rs, err = FingerprintSourceAdvanced(files[cl.file].path, files[cl.file].src, fpPolicy[cl.policy], cl.strict)
+						}()
+						outs[i] = append(outs[i], renderResults(rs, err, pv))
+						continue
+					}
 					outs[i] = append(outs[i], callFP(files[cl.file].pkgs[i], fpPolicy[cl.policy], cl.strict))
 				}
 			}()
@@ -327,7 +387,12 @@ func runC01History(t *vs.Tape, cfg map[string]string) (res vs.Result) {
 	}
 	fi := t.Intn(len(files), "file")
 	pi := t.Intn(2, "policy")
-	rs, err := FingerprintPackages(files[fi].pkgs[0], fpPolicy[pi], false)
+	pkh, err := files[fi].slot(0)
+	if err != nil {
+		res.Infra = err.Error()
+		return
+	}
+	rs, err := FingerprintPackages(pkh, fpPolicy[pi], false)
 	if err != nil || len(rs) == 0 {
 		res.Infra = fmt.Sprintf("history corpus: %v", err)
 		return
@@ -417,7 +482,20 @@ func runC01Stress(t *vs.Tape, cfg map[string]string) (res vs.Result) {
 		for _, cl := range p {
 			k := fmt.Sprint(cl)
 			if _, ok := refs[k]; !ok {
-				refs[k] = callFP(files[cl.file].pkgs[0], fpPolicy[cl.policy], cl.strict)
+				pkr, err := files[cl.file].slot(0)
+				if err != nil {
+					res.Infra = err.Error()
+					return
+				}
+				refs[k] = callFP(pkr, fpPolicy[cl.policy], cl.strict)
+			}
+		}
+	}
+	for i, p := range progs {
+		for _, cl := range p {
+			if _, err := files[cl.file].slot(i); err != nil {
+				res.Infra = err.Error()
+				return
 			}
 		}
 	}
